@@ -263,9 +263,11 @@ def main(argv=None):
             'samples': m['samples'],
             'trivial_cases': m['trivial'],
             'monitor_evaluations': m['monitors'],
-            'input_classes_seen': m['classes'],
+            'input_classes_seen': dict(sorted(m['classes'].items(), key=lambda kv: (-kv[1], kv[0]))[:200]),
+            'input_classes_distinct': len(m['classes']),
             'excluded_and_counted': m['skipped'],
-            'events': m['events'],
+            'events': dict(sorted(m['events'].items(), key=lambda kv: (-kv[1], kv[0]))[:300]),
+            'events_distinct': len(m['events']),
             'numpy_warnings_from_repo_frames': dict(sorted(m['warnings'].items(), key=lambda kv: -kv[1])[:12]),
             'anchored_reach': reach.table(pid, m['reach']),
             'known_findings_observed': {k: v['count'] for k, v in seen_known.items()},
